@@ -233,8 +233,8 @@ def peer_ok(ops, out, verdict=None):
             upto = min(ks) + 1
     seen = set()
     for op, items in list(zip(ops, gs))[:upto]:
-        if op[0] in "AR":
-            sid, mid = op[1:].split(",")
+        if op[0] in "AR" or (op[0] == "B" and not op.endswith(",4")):
+            sid, mid = op[1:].split(",")[:2]
             if (sid, mid) not in seen:
                 return False
         for it in items:
